@@ -72,6 +72,13 @@ def TPoints.joined (ps : List (TPoints α)) : Except Err (TPoints α) := do
   | some t => pure ⟨t, r⟩
   | none => throw .value
 
+/-- typed version of the natural total extension `Points.joinedTotal` -/
+def TPoints.joinedTotal (ps : List (TPoints α)) : Except Err (TPoints α) := do
+  let r ← Points.joinedTotal (ps.map (·.pts))
+  match promoteAll ((ps.filter fun p => !p.pts.isempty).map (·.dtype)) with
+  | some t => pure ⟨t, r⟩
+  | none => pure ⟨.f32, r⟩          -- `Points.empty()` is float32
+
 /-- `p + q`, `p - q`, `p * q` on tensors: promoted type -/
 def TPoints.arith (f : α → α → α) (p q : TPoints α) : Except Err (TPoints α) := do
   let r ← p.pts.arith f q.pts; pure ⟨promote p.dtype q.dtype, r⟩
